@@ -30,36 +30,40 @@ def run(repo, chk, tier):
 
 
 def coder(repo, chk):
-    fn = repo.func(CR, 'mixed_rank_graph')
-    m = fn.module
-    frame = fn.params[0]
-    # the frame captured by the worker closure
-    inner = [f for q, f in m.funcs.items() if q.startswith('mixed_rank_graph.')]
-    cap = None
-    for f in inner:
-        for c in calls(f):
-            for k in c.keywords:
-                if k.arg == 'tmp_df' and isinstance(k.value, ast.Name):
-                    cap = k.value.id
-            if cap is None and len(c.args) >= 4 and isinstance(c.args[3], ast.Name):
-                cap = c.args[3].id
-    if cap is None:
-        chk.unsure('C02.3', 'R6', fn.site(), 'frame handed to the workers', 'cannot find the coded frame captured by the worker closure')
-        return
-    defs = [n for n in own_nodes(fn.node) if isinstance(n, ast.Assign) and any(isinstance(t, ast.Name) and t.id == cap for t in n.targets)]
-    defs.sort(key=lambda n: n.lineno)
-    last = defs[-1] if defs else None
-    ok = False
-    if last is not None and isinstance(last.value, ast.Call) and m.dotted(last.value.func) == 'pandas.DataFrame' and last.value.args and isinstance(last.value.args[0], ast.DictComp):
-        dc = last.value.args[0]
-        g = dc.generators[0]
-        k = g.target.id if isinstance(g.target, ast.Name) else None
-        val = ast.unparse(dc.value)
-        it_t = term_of(fn, g.iter, inline=True)
-        from ..match import expected_term
-        cols_ok = it_t in (expected_term(m, f'{frame}.columns'), expected_term(m, frame)) and not g.ifs and ast.unparse(dc.key) == k
-        prev = defs[-2] if len(defs) > 1 else None
-        cat_ok = prev is not None and ".astype('category')" in ast.unparse(prev.value) and frame in ast.unparse(prev.value)
-        ok = cols_ok and ((val == f'{cap}[{k}].cat.codes' and cat_ok) or val in (f'pd.factorize({frame}[{k}])[0]', f'{frame}[{k}].factorize()[0]', f"{frame}[{k}].astype('category').cat.codes"))
-    chk.expect(ok, 'C02.3', 'R6', fn.site(last) if last is not None else fn.site(), ast.unparse(last)[:140] if last is not None else '', 'every column handed to the scorers is coded injectively (.cat.codes of the category-typed copy)',
-               'every column of the frame handed to the workers must be coded by an injective encoder (.cat.codes / factorize) of that same column: a non-injective coding merges categories')
+    """Every column of the frame the workers read is an injective coding of the same column of the batch (decided on the path
+    summary of mixed_rank_graph: the frame bound to the worker, written over the parameters)."""
+    from .common import column_coding, mrg_model
+    M = mrg_model(repo)
+    fn = M.fn
+    done = set()
+    for p in M.paths:
+        if p.heuristic == 'Constant':
+            continue
+        wb = M.worker_binding(p) if p.res.unknown is None else None
+        target = repo.func('outrank.algorithms.importance_estimator', 'get_importances_estimate_pairwise')
+        fparam = target.params[3] if len(target.params) > 3 else 'tmp_df'
+        if wb is None or fparam not in wb:
+            if 'unres' not in done:
+                done.add('unres')
+                chk.unsure('C02.3', 'R6', fn.site(), 'frame handed to the workers', 'cannot find the coded frame bound to the worker function')
+            continue
+        key = ast.unparse(wb[fparam])
+        if key in done:
+            continue
+        done.add(key)
+        kind, detail = column_coding(repo, fn, wb[fparam])
+        site = fn.site(wb['__site__']) if hasattr(wb.get('__site__'), 'lineno') else fn.site()
+        if kind in ('category', 'factorize-sorted', 'factorize'):
+            chk.ok('C02.3', 'R6', site, key[:140], f'every column handed to the scorers is coded injectively ({kind}: {detail})')
+        elif ast.unparse(wb[fparam]) == fn.params[0]:
+            chk.bad('C02.3', 'R6', site, key[:140], 'the workers read the uncoded batch frame: the estimators need integer category codes produced by an injective encoder of each column')
+        else:
+            frame_t = term_of(fn, wb[fparam], inline=False)
+            from ..terms import walk_term
+            lossy = [x for x in walk_term(frame_t) if isinstance(x, tuple) and x and x[0] in ('%', '//') or (isinstance(x, tuple) and x[:1] == ('call',) and x[1] in (('name', 'hash'), ('name', 'len'), ('lib', 'builtins.hash')))]
+            if lossy:
+                chk.bad('C02.3', 'R6', site, key[:140], 'every column of the frame handed to the workers must be coded by an injective encoder (.cat.codes / factorize) of that same column: a non-injective coding (modulo / hash / length) merges categories')
+            else:
+                chk.unsure('C02.3', 'R6', site, key[:140], f'cannot establish that the frame handed to the workers is an injective coding of the batch columns: {detail}')
+
+
